@@ -99,6 +99,7 @@ func instFresh(q *Term) *Term {
 
 type instCtx struct {
 	ground map[string]map[*Term]bool // ground index terms by array sort / function argument
+	byArr  map[*Term]map[*Term]bool  // ground index terms by the exact array term read
 	quants map[*Term]bool
 	seen   map[*Term]bool
 }
@@ -140,6 +141,12 @@ func (ic *instCtx) scan(t *Term, bmemo map[*Term]bool) {
 				ic.ground[k] = m
 			}
 			m[i] = true
+			ma := ic.byArr[t.Args[0]]
+			if ma == nil {
+				ma = map[*Term]bool{}
+				ic.byArr[t.Args[0]] = ma
+			}
+			ma[i] = true
 		}
 	}
 	if t.Op == "app" {
@@ -265,7 +272,7 @@ func Instantiate(asserts []*Term, rounds int, capPerQuant int) []*Term {
 	out := append([]*Term{}, asserts...)
 	done := map[[2]*Term]bool{}
 	for r := 0; r < rounds; r++ {
-		ic := &instCtx{ground: map[string]map[*Term]bool{}, quants: map[*Term]bool{}, seen: map[*Term]bool{}}
+		ic := &instCtx{byArr: map[*Term]map[*Term]bool{}, ground: map[string]map[*Term]bool{}, quants: map[*Term]bool{}, seen: map[*Term]bool{}}
 		bmemo := map[*Term]bool{}
 		for _, a := range out {
 			ic.scan(a, bmemo)
@@ -276,11 +283,33 @@ func Instantiate(asserts []*Term, rounds int, capPerQuant int) []*Term {
 		}
 		sort.Slice(qs, func(i, j int) bool { return qs[i].id < qs[j].id })
 		added := 0
+		insts := map[*Term][]*Term{}
 		for _, q := range qs {
 			body := q.Args[0]
 			// candidate values per bound variable
 			cands := make([][]*Term, len(q.Bound))
 			for bi, bv := range q.Bound {
+				if len(q.Pats) > 0 {
+					// explicit patterns select(A, p(k)) with ground A: exact matching only
+					set := map[*Term]bool{}
+					for _, pt := range q.Pats {
+						if pt.Op != "select" || containsBound(pt.Args[0], bmemo) {
+							continue
+						}
+						var gs []*Term
+						for t := range ic.byArr[pt.Args[0]] {
+							gs = append(gs, t)
+						}
+						sort.Slice(gs, func(i, j int) bool { return gs[i].id < gs[j].id })
+						for _, t := range gs {
+							if x := solveFor(pt.Args[1], bv, t); x != nil && !set[x] {
+								set[x] = true
+								cands[bi] = append(cands[bi], x)
+							}
+						}
+					}
+					continue
+				}
 				pats := indexPatterns(body, bv)
 				set := map[*Term]bool{}
 				for _, ip := range pats {
@@ -322,12 +351,7 @@ func Instantiate(asserts []*Term, rounds int, capPerQuant int) []*Term {
 				if !done[dk] {
 					done[dk] = true
 					inst := Subst(body, m)
-					proxy := Const(fmt.Sprintf("vp_q!%d", q.id), SBool)
-					if !done[[2]*Term{q, proxy}] {
-						done[[2]*Term{q, proxy}] = true
-						out = append(out, Implies(q, proxy))
-					}
-					out = append(out, Implies(proxy, inst))
+					insts[q] = append(insts[q], inst)
 					added++
 					count++
 				}
@@ -348,6 +372,15 @@ func Instantiate(asserts []*Term, rounds int, capPerQuant int) []*Term {
 		}
 		if added == 0 {
 			break
+		}
+		// Q is equivalent to Q ∧ Q[t1] ∧ Q[t2] ...: rewrite in place (sound in any
+		// polarity, and keeps every quantifier occurrence positive)
+		rw := map[*Term]*Term{}
+		for q, is := range insts {
+			rw[q] = And(append([]*Term{q}, is...)...)
+		}
+		for i, a := range out {
+			out[i] = substQuant(a, rw)
 		}
 	}
 	return out
@@ -405,4 +438,36 @@ func elimDiv(asserts []*Term) []*Term {
 		out = append(out, Implies(Ne(b, IntLit(0)), And(Eq(a, Add(Mul(b, p.q), p.r)), Le(IntLit(0), p.r), Lt(p.r, absB))))
 	}
 	return out
+}
+
+// substQuant replaces whole quantified subterms (it does not descend into them).
+func substQuant(t *Term, m map[*Term]*Term) *Term {
+	memo := map[*Term]*Term{}
+	var rec func(t *Term) *Term
+	rec = func(t *Term) *Term {
+		if r, ok := m[t]; ok {
+			return r
+		}
+		if len(t.Args) == 0 || t.Op == "forall" || t.Op == "exists" {
+			return t
+		}
+		if r, ok := memo[t]; ok {
+			return r
+		}
+		args := make([]*Term, len(t.Args))
+		ch := false
+		for i, a := range t.Args {
+			args[i] = rec(a)
+			if args[i] != a {
+				ch = true
+			}
+		}
+		r := t
+		if ch {
+			r = rebuild(t, args)
+		}
+		memo[t] = r
+		return r
+	}
+	return rec(t)
 }
